@@ -300,9 +300,16 @@ pub fn ncpu() -> usize {
         .unwrap_or_else(|| std::thread::available_parallelism().map(|n| n.get()).unwrap_or(4))
 }
 
+thread_local! {
+    static GUARD_DEPTH: std::cell::Cell<u32> = const { std::cell::Cell::new(0) };
+}
+
 /// Runs a closure catching panics; returns Err(message) on panic.
 pub fn guarded<T>(f: impl FnOnce() -> T) -> Result<T, String> {
-    match std::panic::catch_unwind(std::panic::AssertUnwindSafe(f)) {
+    GUARD_DEPTH.with(|d| d.set(d.get() + 1));
+    let r = std::panic::catch_unwind(std::panic::AssertUnwindSafe(f));
+    GUARD_DEPTH.with(|d| d.set(d.get() - 1));
+    match r {
         Ok(v) => Ok(v),
         Err(p) => Err(if let Some(s) = p.downcast_ref::<&str>() {
             (*s).to_string()
@@ -314,7 +321,12 @@ pub fn guarded<T>(f: impl FnOnce() -> T) -> Result<T, String> {
     }
 }
 
-/// Silences the default panic hook output (panics are expected and caught in sweeps).
+/// Silences panic output for panics inside `guarded` (expected and caught in sweeps);
+/// a panic of the harness itself is still printed.
 pub fn quiet_panics() {
-    std::panic::set_hook(Box::new(|_| {}));
+    std::panic::set_hook(Box::new(|info| {
+        if GUARD_DEPTH.with(|d| d.get()) == 0 {
+            eprintln!("HARNESS PANIC: {info}");
+        }
+    }));
 }
